@@ -505,10 +505,10 @@ non-unit included), when `clip_aabb_line` returns `Some((tmin, …), (tmax, …)
 set of parameters `t` (within the representable range `|t| ≤ f64::MAX`, the initial `tmin/tmax` of the code) whose point
 `origin + t·dir` lies in the box. -/
 theorem clip_aabb_line_some (b : Aabb3 K) (o d : V3 K) (hb : ValidBox b) (near far : K × V3 K × Int)
-    (h : letI := fieldNum K sq; clipAabbLine b o d = some (near, far)) :
+    (h : letI := fieldNum K sq; clipAabbLineC b o d = some (near, far)) :
     ∀ t, (near.1 ≤ t ∧ t ≤ far.1) ↔ ((-big K ≤ t ∧ t ≤ big K) ∧ BMem b (lineAt o d t)) := by
   have key := clipLoop_spec sq b o d hb
-  simp only [clipAabbLine] at h
+  simp only [clipAabbLineC] at h
   revert key h
   cases @clipLoop K (fieldNum K sq) b o d with
   | none => intro h key; simp at h
@@ -524,10 +524,10 @@ theorem clip_aabb_line_some (b : Aabb3 K) (o d : V3 K) (hb : ValidBox b) (near f
 of the box: `None ⇔` the line misses the box. (Together with `clip_aabb_line_some`: `Some ⇒` the interval is non-empty, since
 `tmin ≤ tmax` is checked by the code.) -/
 theorem clip_aabb_line_none (b : Aabb3 K) (o d : V3 K) (hb : ValidBox b)
-    (h : letI := fieldNum K sq; clipAabbLine b o d = none) :
+    (h : letI := fieldNum K sq; clipAabbLineC b o d = none) :
     ∀ t, -big K ≤ t → t ≤ big K → ¬ BMem b (lineAt o d t) := by
   have key := clipLoop_spec sq b o d hb
-  simp only [clipAabbLine] at h
+  simp only [clipAabbLineC] at h
   revert key h
   cases @clipLoop K (fieldNum K sq) b o d with
   | none => intro _ key t h1 h2 hm; exact key t ⟨⟨h1, h2⟩, hm⟩
@@ -535,11 +535,11 @@ theorem clip_aabb_line_none (b : Aabb3 K) (o d : V3 K) (hb : ValidBox b)
 
 /-- `Some` is never an empty interval: `tmin ≤ tmax`, hence (by `clip_aabb_line_some`) the line does meet the box. -/
 theorem clip_aabb_line_some_nonempty (b : Aabb3 K) (o d : V3 K) (hb : ValidBox b) (near far : K × V3 K × Int)
-    (h : letI := fieldNum K sq; clipAabbLine b o d = some (near, far)) :
+    (h : letI := fieldNum K sq; clipAabbLineC b o d = some (near, far)) :
     near.1 ≤ far.1 ∧ ∃ t, (-big K ≤ t ∧ t ≤ big K) ∧ BMem b (lineAt o d t) := by
   have key := clipLoop_spec sq b o d hb
   have hbig : (0 : K) ≤ big K := le_trans zero_le_one one_le_big
-  simp only [clipAabbLine] at h
+  simp only [clipAabbLineC] at h
   revert key h
   cases @clipLoop K (fieldNum K sq) b o d with
   | none => intro h key; simp at h
@@ -557,10 +557,10 @@ theorem clip_aabb_line_some_nonempty (b : Aabb3 K) (o d : V3 K) (hb : ValidBox b
 `k+1` ⇒ the point at that parameter lies on the `mins` face of axis `k`, `-(k+1)` ⇒ on its `maxs` face; index `0` is returned
 only when no axis constrained the parameter (it is then still `∓f64::MAX`, e.g. for a zero direction). -/
 theorem clip_aabb_line_sides (b : Aabb3 K) (o d : V3 K) (near far : K × V3 K × Int)
-    (h : letI := fieldNum K sq; clipAabbLine b o d = some (near, far)) :
+    (h : letI := fieldNum K sq; clipAabbLineC b o d = some (near, far)) :
     FaceHit b o d near.1 near.2.2 (-big K) ∧ FaceHit b o d far.1 far.2.2 (big K) := by
   letI : Num K := fieldNum K sq
-  simp only [clipAabbLine] at h
+  simp only [clipAabbLineC] at h
   have key : ∀ st, clipLoop b o d = some st →
       FaceHit b o d st.tmin st.nearSide (-big K) ∧ FaceHit b o d st.tmax st.farSide (big K) := by
     intro st hst
@@ -568,12 +568,12 @@ theorem clip_aabb_line_sides (b : Aabb3 K) (o d : V3 K) (near far : K × V3 K ×
     have i0 : FaceHit b o d (@clipInit K (fieldNum K sq)).tmin (@clipInit K (fieldNum K sq)).nearSide (-big K) ∧
         FaceHit b o d (@clipInit K (fieldNum K sq)).tmax (@clipInit K (fieldNum K sq)).farSide (big K) := by
       constructor <;> left <;> simp [clipInit, f64Max_eq]
-    cases h0 : clipStep b o d clipInit 0 with
+    cases h0 : clipStepC b o d clipInit 0 with
     | none => rw [h0] at hst; simp at hst
     | some s0 =>
       rw [h0] at hst; simp only [Option.bind_some] at hst
       have i1 := clipStep_sides sq b o d _ s0 0 i0.1 i0.2 h0
-      cases h1 : clipStep b o d s0 1 with
+      cases h1 : clipStepC b o d s0 1 with
       | none => rw [h1] at hst; simp at hst
       | some s1 =>
         rw [h1] at hst; simp only [Option.bind_some] at hst
@@ -592,7 +592,7 @@ theorem clip_aabb_line_sides (b : Aabb3 K) (o d : V3 K) (near far : K × V3 K ×
     · split_ifs <;> exact k.2
 
 /-- a line entering through the `mins.x` face (side `1`) and leaving through the `maxs.x` face (side `-1`) -/
-example : (letI := fieldNum ℚ id; (clipAabbLine (⟨⟨0, 0, 0⟩, ⟨1, 2, 3⟩⟩ : Aabb3 ℚ) ⟨-1, 1, 1⟩ ⟨1, 0, 0⟩).map fun c => (c.1.2.2, c.2.2.2))
+example : (letI := fieldNum ℚ id; (clipAabbLineC (⟨⟨0, 0, 0⟩, ⟨1, 2, 3⟩⟩ : Aabb3 ℚ) ⟨-1, 1, 1⟩ ⟨1, 0, 0⟩).map fun c => (c.1.2.2, c.2.2.2))
     = some (1, -1) := by decide +kernel
 
 /-- **C17 (`Aabb::clip_line_parameters`)**: `Some((t0,t1))` ⇒ `[t0,t1]` is exactly the parameter set of the line inside the box
@@ -607,7 +607,7 @@ theorem clip_line_parameters_spec (b : Aabb3 K) (o d : V3 K) (hb : ValidBox b) :
   have h2 := clip_aabb_line_none sq b o d hb
   have h3 := clip_aabb_line_some_nonempty sq b o d hb
   revert h1 h2 h3
-  cases @clipAabbLine K (fieldNum K sq) b o d with
+  cases @clipAabbLineC K (fieldNum K sq) b o d with
   | none => intro _ h2 _; exact h2 rfl
   | some c =>
     obtain ⟨near, far⟩ := c
@@ -662,7 +662,7 @@ theorem clip_segment_spec (b : Aabb3 K) (pa pb : V3 K) (hb : ValidBox b) :
   have h1 := clip_aabb_line_some sq b pa (@V3.sub K (fieldNum K sq) pb pa) hb
   have h2 := clip_aabb_line_none sq b pa (@V3.sub K (fieldNum K sq) pb pa) hb
   revert h1 h2
-  cases @clipAabbLine K (fieldNum K sq) b pa (@V3.sub K (fieldNum K sq) pb pa) with
+  cases @clipAabbLineC K (fieldNum K sq) b pa (@V3.sub K (fieldNum K sq) pb pa) with
   | none =>
     intro _ h2
     simp only [Option.bind_none]
